@@ -61,7 +61,7 @@ type histScn struct {
 	script                       []histAct
 	end                          int64
 	noBatchEvents                bool   // the Batcher is built WITHOUT WithEmitBatch(): no batch events (monitor-only traces)
-	lst                          string // listener-driven actions "event:ACTS,..." (another goroutine performs ACTS while the event is being delivered; letters P Pause, X stop, F Flush)
+	lst                          string // listener-driven actions "event:ACTS,..." (another goroutine performs ACTS while the event is being delivered; letters P Pause, X stop, F Flush, E Enqueue of operation 0)
 }
 
 func (s histScn) key() string {
@@ -395,6 +395,12 @@ func runHist(s histScn) (line string) {
 						case 'P':
 							lg.add("act:P")
 							f.pause()
+						case 'E':
+							// an Enqueue that lands while the event is being delivered (generated with ErrorOnFullBuffer only,
+							// so that it returns and the loop is not held up for ever)
+							if len(s.ops) > 0 {
+								enq(0, nil)
+							}
 						case 'F':
 							lg.add("act:F")
 							f.flush()
@@ -714,6 +720,8 @@ func histRandom(r *rng, profile string) histScn {
 		s.lst = "pause:P" // a second Pause() while the pause event of the first is still being delivered
 	case 5:
 		s.lst = "pause:PF"
+	case 6:
+		s.lst, s.eof = "flush-start:E", true // an operation arrives between the start of a cycle and its walk of the buffer
 	}
 	// probes around the write-off instants: batches are raised at flush ticks, so sample at tick + MaxOperationTime -1ns/0/+1ns
 	if started && r.chance(1, 2) {
